@@ -89,3 +89,26 @@ package slip
 //@   on-store mode=stringMode fresh-buffer: len(r.buf) == 0
 //@   on-store mode=symbolMode fresh-buffer: len(r.buf) == 0
 //@   ensures no-silent-loss: (!r.more && !(r.one && len(r.code) > 0)) ==> len(r.stack) == 0
+
+// ---------------------------------------------------------------------------
+// C08 / C13: (re)defining a function. When a placeholder or an earlier
+// definition exists, the registered lambda that compiled callers already
+// point at receives every field of the new definition; the function is
+// exported only because of an exported unbound placeholder; no other entry of
+// the package tables changes. (Checked where the tables are released, before
+// the user hooks run.)
+//@ func slip.(*Package).DefLambda
+//@   property C08 C13
+//@   on-call Unlock patched: (old(has(obj.lambdas, name)) && old(obj.lambdas[name]) != nil) ==> (obj.lambdas[name] == old(obj.lambdas[name]) && obj.lambdas[name].Doc == lam.Doc && obj.lambdas[name].Forms == lam.Forms && obj.lambdas[name].Closure == lam.Closure && obj.lambdas[name].Macro == lam.Macro)
+//@   on-call Unlock registered: !(old(has(obj.lambdas, name)) && old(obj.lambdas[name]) != nil) ==> (has(obj.lambdas, name) && obj.lambdas[name] == lam)
+//@   on-call Unlock funcinfo: has(obj.funcs, name) && obj.funcs[name] != nil && obj.funcs[name].Doc == lam.Doc && obj.funcs[name].Pkg == obj && obj.funcs[name].Kind == kind
+//@   on-call Unlock export-needs-exported-placeholder: (!(old(has(obj.funcs, name)) && old(obj.funcs[name]) != nil) && obj.funcs[name].Export) ==> (old(has(obj.vars, name)) && old(obj.vars[name]) != nil && old(obj.vars[name].Export))
+//@   on-call Unlock other-lambdas-kept: forall n :: n != name ==> (has(obj.lambdas, n) == old(has(obj.lambdas, n)) && obj.lambdas[n] == old(obj.lambdas[n]))
+//@   on-call Unlock other-funcs-kept: forall n :: n != name ==> (has(obj.funcs, n) == old(has(obj.funcs, n)) && obj.funcs[n] == old(obj.funcs[n]))
+
+// C08: pre-compilation visits every top-level form: definitions that follow an
+// atom, a call or another definition are still hoisted (both passes run to
+// the end of the code).
+//@ func slip.(Code).Compile
+//@   property C08
+//@   full-loop rangeindex
